@@ -12,7 +12,8 @@ CONSTANTS Pfxs,       \* e.g. {"x", "y"}
           Paths,      \* attribute bundles, e.g. {"a", "b", "c"}; each has its own path identifier with add-path
           AddPathTX,  \* BOOLEAN: add-path send
           MaxDepth,
-          Acts        \* subset of {"add", "remove", "flush", "bucket"}
+          Acts,       \* subset of {"add", "remove", "flush", "bucket", "put"}
+          ViaRibOut   \* BOOLEAN: the calls are made on the session's Adj-RIB-Out (which passes them on to the sender), see Put
 
 VARIABLES adjOut,     \* [Pfxs -> SUBSET Paths]: what the Adj-RIB-Out currently advertises through this sender
           queue,      \* set of <<pfx, path>>: announcements waiting for the next round
@@ -39,6 +40,15 @@ AddPath(x, p) ==
     /\ queue' = queue \cup {<<x, p>>}
     /\ UNCHANGED peer
     /\ Log([a |-> "AddPath", pfx |-> x, p |-> p])
+
+(* AdjRIBOut.AddPath on a session without add-path, whatever the table holds for the prefix: a path replaces the stored one    *)
+(* (the sender is told to withdraw the old one, then to announce the new one) - also when it is the very same path again       *)
+Put(x, p) ==
+    /\ ViaRibOut /\ ~AddPathTX
+    /\ adjOut' = [adjOut EXCEPT ![x] = {p}]
+    /\ queue' = {e \in queue : e[1] # x} \cup {<<x, p>>}
+    /\ peer' = IF adjOut[x] = {} THEN peer ELSE [peer EXCEPT ![x] = {}]
+    /\ Log([a |-> "Put", pfx |-> x, p |-> p])
 
 (* the withdrawal goes out at once; an announcement of the same (prefix, path) that is still queued must not follow it *)
 RemovePath(x, p) ==
@@ -67,6 +77,7 @@ Flush ==
     /\ Log([a |-> "Flush"])
 
 Step == \/ "add" \in Acts /\ \E x \in Pfxs, p \in Paths : AddPath(x, p)
+        \/ "put" \in Acts /\ \E x \in Pfxs, p \in Paths : Put(x, p)
         \/ "remove" \in Acts /\ \E x \in Pfxs, p \in Paths : RemovePath(x, p)
         \/ "bucket" \in Acts /\ \E p \in Paths : SendBucket(p)
         \/ "flush" \in Acts /\ Flush
